@@ -25,7 +25,7 @@ theorem setListen_rx_post (s : DrvState) (h : Inv s) :
     rw [h.cached.config]; exact hb.1
   unfold setListen address assignPrefix
   exec_simp [h.cached.config, hb.1]
-  rw [exec_regWrite_nat _ _ _ (by omega) (by decide)]
+  rw [exec_regWrite_nat3 _ _ _ (by omega) (by decide)]
   cases hra : s.d.pipe0ReadAddr with
   | some ra =>
     obtain ⟨hne, hlen, -⟩ := h.user0 ra hra
@@ -60,7 +60,7 @@ theorem setListen_rx_post (s : DrvState) (h : Inv s) :
         simp only [hO.2.2.2.2 hob]
         exact { h.cached with config := hcfgd }
     · exec_simp [hra, getPipes, Int.reduceGT, Int.reduceLT, Int.reduceLE, Int.reduceToNat, h.cached.openPipes, hopen, hOc.1]
-      rw [exec_regWrite_nat _ _ _ (by omega) (by decide)]
+      rw [exec_regWrite_nat3 _ _ _ (by omega) (by decide)]
       exec_simp []
       refine Post.ite_sleep _ _ (Post.of_reach (by reach h.wf) h.wf ?_ hra ?_)
       · rw [Radio.w_config _ _ hb.2 (.inl rfl), Radio.w_enRxAddr _ _ hOc.2]
@@ -81,14 +81,14 @@ theorem setListen_tx_post (s : DrvState) (h : Inv s) :
     rw [h.cached.config]; exact hb.1
   unfold setListen flushTx
   exec_simp [h.cached.config, hb.1, Bool.false_eq_true]
-  rw [exec_regWrite_nat _ _ _ (by omega) (by decide)]
+  rw [exec_regWrite_nat3 _ _ _ (by omega) (by decide)]
   by_cases hopen : ¬ s.cfg.enAA &&& 1 = 0 ∧ s.cfg.enRxAddr &&& 1 = 0
   · have hAb : bitOf s.cfg.enAA 0 = true := hA.1.1 hopen.1
     by_cases hfl : s.cfg.feature &&& 6 = 6 ∧ ¬ s.cfg.enAA &&& s.cfg.dynpd &&& 1 = 0
     all_goals
       exec_simp [Bool.false_eq_true, h.cached.features, h.cached.aa, h.cached.dynPl, h.cached.openPipes, hfl, hopen.1,
         hopen.2, exec_regCmd, hO.2.2.1]
-      rw [exec_regWrite_nat _ _ _ (by omega) (by decide)]
+      rw [exec_regWrite_nat3 _ _ _ (by omega) (by decide)]
       exec_simp []
       refine Post.ite_sleep _ _ (Post.of_reach (by reach h.wf) h.wf ?_ rfl ?_)
       · rw [Radio.w_config _ _ hb.2 (.inl rfl), Radio.w_enRxAddr _ _ hOlt]
